@@ -185,6 +185,28 @@ def run(ck):
 
     narrowing_len_sweep(ck, crate("rs", "concordium_base"), re.compile(r"concordium_base::(id::id_verifier|web3id)"), re.compile(r"(verify|verifier|validate|check)[a-z_0-9]*(::\{closure#\d+\})*$"))
     conditional_transcript_sweep(ck, crate("rs", "concordium_base"), re.compile(r"concordium_base::(id::id_verifier|id::identity_attributes_credentials|web3id)"), floor=5)
+    # what a statement says is handed to the proof verifiers WHOLE: no take/skip/truncate/filter on statement data in the
+    # verifier functions (a set capped at the number of generators is a smaller statement than the one being claimed)
+    TRUNC_OK = {"web3id::v1::IdentityBasedCredentialV1<P, C, AttributeType>>::verify": "filter_map over the statements selects the attribute tags that need a commitment lookup; nothing is dropped from a statement"}
+    ntr = 0
+    cc_ = crate("rs", "concordium_base")
+    for p0 in sorted(cc_.paths()):
+        if not re.search(r"concordium_base::(id::id_verifier|id::identity_attributes_credentials|web3id)", p0) or re.search(r"::tests?::|::test_|prove|prover", p0):
+            continue
+        if not re.search(r"verify|check|validate", p0):
+            continue
+        for b in cc_.get_all(p0):
+            f = Fn(b)
+            ntr += 1
+            cuts = [(bi, t) for (bi, t) in f.calls(r"Iterator::(take|skip|step_by|take_while|skip_while|filter|filter_map)$|::truncate$|::split_at$|::split_off$|Vec::<.*>::(drain|dedup|retain)$|::chunks$")]
+            exc = [v for k, v in TRUNC_OK.items() if p0.endswith(k)]
+            if cuts and exc and all(t["f"]["name"] == "filter_map" for (_, t) in cuts):
+                ck.ob("COV", p0, "statement-data-used-whole", True, "documented exception: " + exc[0], f.loc(cuts[0][0]), nontrivial=False)
+                continue
+            ck.ob("COV", p0, "statement-data-used-whole", not cuts,
+                  "no truncating or selecting combinator in this verifier function" if not cuts else
+                  "%s is applied in a verifier function: part of the statement (or proof) is cut off before it is checked" % cuts[0][1]["f"]["name"], f.loc(cuts[0][0]) if cuts else f.loc(), nontrivial=False)
+    ck.floor("COV", "verifier functions examined for truncation", ntr, 30)
     gated_verification_sweep(ck, crate("rs", "concordium_base"), re.compile(r"concordium_base::(id::id_verifier|id::identity_attributes_credentials|web3id)"), floor=15)
     eq_polarity_sweep(ck, crate("rs", "concordium_base"), re.compile(r"concordium_base::(id::id_verifier|id::identity_attributes_credentials|web3id)"), re.compile(r"(verify|verifier|validate|check)[a-z_0-9]*(::\{closure#\d+\})*$"))
     rejecting_checks_floor(ck, crate("rs", "concordium_base"), re.compile(r"concordium_base::(id::id_verifier|id::identity_attributes_credentials|web3id)"), re.compile(r"(verify|verifier|validate|check|extract_commit_message)[a-z_0-9]*(::\{closure#\d+\})*$"), "C18")
